@@ -139,7 +139,9 @@ type ContentSpec struct {
 	// FailOnCall: which invocation of the producer fails (1-based); 0 = every invocation.
 	FailOnCall int `json:"failOnCall,omitempty"`
 	// ErrKind selects the identity of the error the producer fails with: "" (a plain sentinel) |
-	// eof | wrapped-eof | unexpected-eof | short-write | closed | canceled
+	// eof | wrapped-eof | unexpected-eof | short-write | closed | canceled | open ("open": the
+	// source cannot be opened any more when the message is rendered although it could when it
+	// was attached — sources "fs" and "file" only; FailAt is irrelevant)
 	ErrKind string `json:"errKind,omitempty"`
 }
 
@@ -233,6 +235,8 @@ type Producer struct {
 	Emitted int
 	// DownstreamErr counts invocations that stopped because the writer failed.
 	DownstreamErr int
+	// Vanished: the source (a file) was removed after attaching; every render fails on it.
+	Vanished bool
 }
 
 func (p *Producer) failing() bool {
@@ -355,13 +359,21 @@ func (r *faultReader) Seek(off int64, whence int) (int64, error) {
 
 // faultFS is an fs.FS with one file whose reads follow the producer's behaviour.
 type faultFS struct {
-	name string
-	p    *Producer
+	name  string
+	p     *Producer
+	opens *int
 }
 
 func (f faultFS) Open(name string) (fs.File, error) {
 	if name != f.name {
 		return nil, fs.ErrNotExist
+	}
+	*f.opens++
+	if p := f.p; *f.opens > 1 && p.Spec.Fail && p.Spec.ErrKind == "open" && (p.Spec.FailOnCall == 0 || p.Spec.FailOnCall == p.Calls+1) {
+		// the first Open is the one of AttachFromIOFS/EmbedFromIOFS; every later one is a render
+		p.Calls++
+		p.Fired++
+		return nil, &fs.PathError{Op: "open", Path: name, Err: fs.ErrNotExist}
 	}
 	return &faultFile{faultReader: faultReader{p: f.p}, name: name}, nil
 }
@@ -426,6 +438,9 @@ func (b *Built) AnyFired() bool {
 func (b *Built) ResetCounters() {
 	for _, p := range b.Producers {
 		p.Fired, p.DownstreamErr = 0, 0
+		if p.Vanished {
+			p.Fired = 1
+		}
 	}
 }
 
@@ -577,6 +592,11 @@ func BuildMsg(s MsgSpec, o BuildOpts) *Built {
 			} else {
 				m.AttachFile(path, append(fopts, mail.WithFileName(f.Name))...)
 			}
+			if f.Content.Fail && f.Content.ErrKind == "open" {
+				// the file disappears between attaching and rendering: every render meets it
+				_ = os.Remove(path)
+				pr.Fired, pr.Vanished = 1, true
+			}
 		case "tmpl":
 			tpl, terr := tt.New("t").Parse("{{.}}")
 			fail(terr)
@@ -586,7 +606,7 @@ func BuildMsg(s MsgSpec, o BuildOpts) *Built {
 				fail(m.AttachTextTemplate(f.Name, tpl, string(f.Content.Data), fopts...))
 			}
 		case "fs":
-			fsys := faultFS{name: f.Name, p: pr}
+			fsys := faultFS{name: f.Name, p: pr, opens: new(int)}
 			if embed {
 				fail(m.EmbedFromIOFS(f.Name, fsys, fopts...))
 			} else {
